@@ -39,7 +39,7 @@ def fact_body_Program_handleCommands : List String := [
     "{ v1 := make(chan struct{}) go func() { defer close(v1) defer verifPause(\"cmds: exit\") for { select { case <-p.ctx.Done(): return case v2 := <-a1: if v2 == nil { continue } go func() { if !p.startupOptions.has(withoutCatchPanics) { defer p.recoverFromPanic() } v3 := v2() p.Send(v3) }() } } }() return v1 }"]
 
 def fact_body_Program_handleResize : List String := [
-    "{ v1 := make(chan struct{}) if p.ttyOutput != nil { go p.checkResize() go p.listenForResize(v1) } else { close(v1) } return v1 }"]
+    "{ v1 := make(chan struct{}) if p.ttyOutput != nil { go p.listenForResize(v1) } else { close(v1) } return v1 }"]
 
 def fact_body_Program_handleSignals : List String := [
     "{ v1 := make(chan struct{}) go func() { v2 := make(chan os.Signal, 1) signal.Notify(v2, syscall.SIGINT, syscall.SIGTERM) defer func() { signal.Stop(v2) verifPause(\"sig: exit\") close(v1) }() for { select { case <-p.ctx.Done(): return case v3 := <-v2: if atomic.LoadUint32(&p.ignoreSignals) == 0 { switch v3 { case syscall.SIGINT: p.Send(InterruptMsg{}) default: p.Send(QuitMsg{}) } return } } } }() return v1 }"]
@@ -51,7 +51,7 @@ def fact_body_Program_initInput : List String := [
     "{ if v1, v2 := p.input.(term.File); v2 && term.IsTerminal(v1.Fd()) { p.ttyInput = v1 p.previousTtyInputState, o1 = term.MakeRaw(p.ttyInput.Fd()) if o1 != nil { return fmt.Errorf(\"error entering raw mode: %w\", o1) } } if v3, v4 := p.output.(term.File); v4 && term.IsTerminal(v3.Fd()) { p.ttyOutput = v3 } return nil }"]
 
 def fact_body_Program_listenForResize : List String := [
-    "{ v1 := make(chan os.Signal, 1) signal.Notify(v1, syscall.SIGWINCH) defer func() { signal.Stop(v1) verifPause(\"resize: exit\") close(a1) }() for { select { case <-p.ctx.Done(): return case <-v1: } p.checkResize() } }"]
+    "{ v1 := make(chan os.Signal, 1) verifPause(\"resize: subscribe\") signal.Notify(v1, syscall.SIGWINCH) defer func() { signal.Stop(v1) verifPause(\"resize: exit\") close(a1) }() p.checkResize() for { select { case <-p.ctx.Done(): return case <-v1: } p.checkResize() } }"]
 
 def fact_body_Program_readLoop : List String := [
     "{ defer close(p.readLoopDone) defer verifPause(\"reader: exit\") v1 := readInputs(p.ctx, p.msgs, p.cancelReader) if !errors.Is(v1, io.EOF) && !errors.Is(v1, cancelreader.ErrCanceled) { select { case <-p.ctx.Done(): case p.errs <- v1: } } }"]
@@ -270,7 +270,6 @@ def fact_gostmts : List String := [
     "Program.exec|p.Send",
     "Program.handleCommands|func-literal",
     "Program.handleCommands|func-literal",
-    "Program.handleResize|p.checkResize",
     "Program.handleResize|p.listenForResize",
     "Program.handleSignals|func-literal",
     "Program.initCancelReader|p.readLoop",
